@@ -4,6 +4,7 @@ func registerAll() {
 	registerWorld(evidWorld{})
 	registerWorld(netWorld{})
 	registerWorld(histWorld{})
+	registerWorld(obsWorld{})
 
 	stubsEvid := []string{"FaultySigner (wrapper around the real go-cose signer)", "deterministic crypto.Signer wrapper over pool keys",
 		"sim extension profiles XP1/XP2 (thin structs over the real encoding helpers, fault switch)", "committed key pool"}
@@ -59,5 +60,15 @@ func registerAll() {
 			"which claims are mandatory is derived the same way (drop the claim from a valid set, ask Validate())",
 			"an empty non-nil component list is the exempt 'clear' operation; only the library's own component type is used"},
 		MustProbes: []string{"setter_ok", "setter_failed", "rebuild_compared", "all_mandatory_set", "sw_clear"},
+	}
+
+	props["C18"] = &propSpec{
+		ID: "C18", Worlds: []string{"W-OBS"}, QuickRuns: 6000, ThoroughRuns: 600000,
+		Rule: "one run = a pool of 2..6 objects (claims-sets built valid or invalid by field assignment or setters; claims decoded from CBOR / JSON / COSE messages, some structurally damaged at a tree node and re-signed; signing Evidence; decoded Evidence), values deliberately shared across objects and profiles, and a history of 1..30 steps: a read-side call (Validate, each getter, component getters, plain and validating encoders, Verify under any pool key or nil, Evidence.MarshalJSON / GetInstanceID / GetImplementationID) on the long-lived twin, the same call as the very first call on a fresh twin, or the channel overwriting / reusing the receive buffer an object was decoded from. After every step every object of the pool is re-observed (getters, validation class, CBOR and JSON bytes, Verify verdict under all 13 keys and nil) in a rotating order. " +
+			"non-trivial = at least one read-side call on a pool holding both a valid and an invalid object; distinct = distinct hash of (object kinds and dynamic types, call sequence, whether a buffer was overwritten)",
+		Real: commonReal, Stubs: []string{"channel owning the receive buffers", "deterministic crypto.Signer wrapper over pool keys", "sim extension profiles XP1/XP2", "committed key pool"},
+		Assumptions: []string{"'observably unchanged' is judged through the public API (getters, Validate class, encodings, Verify verdicts), not by reflection, so an internal cache would not be reported",
+			"reference Verify verdicts come from a fresh Evidence per key decoded from a pristine copy of the message"},
+		MustProbes: []string{"virgin_call", "buf.scribble", "buf.reuse", "invalid_object", "valid_object"},
 	}
 }
